@@ -319,3 +319,162 @@ Proof. exists [0; 0; 1; 1; 0; 1; 0; 0; 1; 1]. vm_compute. split; reflexivity. Qe
 
 Example unlocked_expected_two : expected [[[1]]; [[1]]] 0 = 2%Z.
 Proof. reflexivity. Qed.
+
+(* ---------- no deadlock: every reachable state can be run to completion ---------- *)
+
+Lemma run_app : forall (s1 s2 : list nat) (st : mstate), run (s1 ++ s2) st = run s2 (run s1 st).
+Proof.
+  induction s1 as [|t r IH]; intros s2 st; [reflexivity|].
+  cbn [app run]. destruct (step st t); apply IH.
+Qed.
+
+Fixpoint total_len (ths : list thread) : nat :=
+  match ths with
+  | [] => 0
+  | th :: r => length (code th) + total_len r
+  end.
+
+Lemma total_len_set_nth : forall (ths : list thread) (i : nat) (th th' : thread),
+  nth_error ths i = Some th ->
+  total_len (set_nth ths i th') + length (code th) = total_len ths + length (code th').
+Proof.
+  induction ths as [|t0 r IH]; intros [|i] th th' H; cbn [nth_error] in H; try discriminate.
+  - injection H as ->. cbn [set_nth total_len]. lia.
+  - cbn [set_nth total_len]. pose proof (IH i th th' H). lia.
+Qed.
+
+Lemma step_shape : forall (st st' : mstate) (tid : nat),
+  step st tid = Some st' ->
+  exists (th : thread) (i : instr) (rest : list instr) (r' : option Z),
+    nth_error (threads st) tid = Some th /\ code th = i :: rest /\
+    threads st' = set_nth (threads st) tid {| code := rest; reg := r' |} /\
+    (lock st' = lock st \/ lock st' = Some tid \/ lock st' = None).
+Proof.
+  intros st st' tid H. unfold step in H.
+  destruct (nth_error (threads st) tid) as [th|] eqn:Hth; [|discriminate].
+  destruct (code th) as [|i rest] eqn:Hc; [discriminate|].
+  exists th, i, rest.
+  destruct i.
+  - injection H as <-. eexists. cbn [threads lock]. split; [reflexivity|split; [exact Hc|split; [reflexivity|auto]]].
+  - injection H as <-. eexists. cbn [threads lock]. split; [reflexivity|split; [exact Hc|split; [reflexivity|auto]]].
+  - destruct (reg th); [|discriminate]. injection H as <-. eexists. cbn [threads lock]. split; [reflexivity|split; [exact Hc|split; [reflexivity|auto]]].
+  - destruct (lock st); [discriminate|]. injection H as <-. eexists. cbn [threads lock]. split; [reflexivity|split; [exact Hc|split; [reflexivity|auto]]].
+  - injection H as <-. eexists. cbn [threads lock]. split; [reflexivity|split; [exact Hc|split; [reflexivity|auto]]].
+Qed.
+
+Lemma step_total_len : forall (st st' : mstate) (tid : nat),
+  step st tid = Some st' -> S (total_len (threads st')) = total_len (threads st).
+Proof.
+  intros st st' tid H. destruct (step_shape st st' tid H) as (th & i & rest & r' & Hth & Hc & Hths & _).
+  rewrite Hths. pose proof (total_len_set_nth _ _ _ {| code := rest; reg := r' |} Hth) as Hl.
+  rewrite Hc in Hl. cbn [code length] in Hl. lia.
+Qed.
+
+(* the lock owner is a thread *)
+Definition owner_valid (st : mstate) : Prop :=
+  forall t : nat, lock st = Some t -> t < length (threads st).
+
+Lemma owner_valid_step : forall (st st' : mstate) (tid : nat),
+  owner_valid st -> step st tid = Some st' -> owner_valid st'.
+Proof.
+  intros st st' tid Hov H. destruct (step_shape st st' tid H) as (th & i & rest & r' & Hth & _ & Hths & Hl).
+  intros t Ht. rewrite Hths, length_set_nth.
+  destruct Hl as [Hl|[Hl|Hl]].
+  - apply Hov. congruence.
+  - rewrite Hl in Ht. injection Ht as <-. apply nth_error_Some. congruence.
+  - congruence.
+Qed.
+
+Lemma tail_of_nil : tail_of [] = [].
+Proof. reflexivity. Qed.
+
+Lemma done_or_not : forall ths : list thread,
+  Forall (fun th : thread => code th = []) ths \/
+  exists (t : nat) (th : thread), nth_error ths t = Some th /\ code th <> [].
+Proof.
+  induction ths as [|th r IH]; [left; constructor|].
+  destruct (code th) as [|i c] eqn:Hc.
+  - destruct IH as [IH|(t & th' & Hn & Hne)].
+    + left. constructor; assumption.
+    + right. exists (S t), th'. split; assumption.
+  - right. exists 0, th. split; [reflexivity|congruence].
+Qed.
+
+(* in a reachable state that is not finished, some thread can move *)
+Lemma inv_enabled : forall (E : cell -> Z) (st : mstate),
+  inv E st -> owner_valid st -> ~ all_done st ->
+  exists (tid : nat) (st' : mstate), step st tid = Some st'.
+Proof.
+  intros E st [_ Hown Hidle] Hov Hnd.
+  destruct (lock st) as [u|] eqn:Hlk.
+  - (* the owner can move *)
+    pose proof (Hov u Hlk) as Hu. apply nth_error_Some in Hu.
+    destruct (nth_error (threads st) u) as [th|] eqn:Hth; [|congruence].
+    exists u. unfold step. rewrite Hth.
+    destruct (Hown u th Hth eq_refl) as (cs & rest & [Hc | (c & Hc & Hr)]).
+    + destruct cs as [|c cs].
+      * rewrite incr_pairs_nil in Hc. cbn [app] in Hc. rewrite Hc. eexists; reflexivity.
+      * rewrite incr_pairs_cons in Hc. cbn [app] in Hc. rewrite Hc. eexists; reflexivity.
+    + rewrite Hc, Hr. eexists; reflexivity.
+  - destruct (done_or_not (threads st)) as [Hd|(t & th & Hth & Hne)]; [contradiction|].
+    exists t. unfold step. rewrite Hth.
+    destruct (Hidle t th Hth ltac:(discriminate)) as (rest & [Hc | (cs & Hc)]).
+    + destruct rest as [|p rest].
+      * rewrite tail_of_nil in Hc. contradiction.
+      * rewrite tail_of_cons in Hc. rewrite Hc. eexists; reflexivity.
+    + rewrite Hc, Hlk. eexists; reflexivity.
+Qed.
+
+Lemma inv_completes : forall (E : cell -> Z) (n : nat) (st : mstate),
+  total_len (threads st) = n -> inv E st -> owner_valid st ->
+  exists sched : list nat, all_done (run sched st).
+Proof.
+  intros E n. induction n as [|n IH]; intros st Hn Hinv Hov.
+  - exists []. cbn [run]. unfold all_done.
+    destruct (done_or_not (threads st)) as [Hd|(t & th & Hth & Hne)]; [exact Hd|].
+    exfalso. revert t Hth Hn. generalize (threads st). intros ths.
+    induction ths as [|t0 r IHr]; intros [|t] Hth Hn; cbn [nth_error total_len] in *; try discriminate.
+    + injection Hth as ->. destruct (code th); [congruence|cbn [length] in Hn; lia].
+    + eapply IHr; eauto. lia.
+  - assert (Hnd : ~ all_done st).
+    { intros Hd. unfold all_done in Hd. revert Hn. generalize (threads st) Hd. intros ths Hd'.
+      induction Hd' as [|th r Hth _ IHd]; cbn [total_len]; [discriminate|].
+      rewrite Hth. cbn [length plus]. exact IHd. }
+    destruct (inv_enabled E st Hinv Hov Hnd) as (tid & st' & Hs).
+    destruct (IH st') as [sched Hsched].
+    + pose proof (step_total_len st st' tid Hs). lia.
+    + eapply inv_step; eauto.
+    + eapply owner_valid_step; eauto.
+    + exists (tid :: sched). cbn [run]. rewrite Hs. exact Hsched.
+Qed.
+
+Lemma owner_valid_run : forall (sched : list nat) (st : mstate),
+  owner_valid st -> owner_valid (run sched st).
+Proof.
+  induction sched as [|t r IH]; intros st Hov; cbn [run]; [exact Hov|].
+  destruct (step st t) as [st'|] eqn:Hs; apply IH; [eapply owner_valid_step; eauto|exact Hov].
+Qed.
+
+(* every partial run of the locked program can be extended to a finished run:
+   the theorem [locked_counts_exact] is never vacuous, and there is no deadlock *)
+Theorem locked_run_progress : forall (tps : list (list (list cell))) (sched0 : list nat),
+  exists sched1 : list nat,
+    all_done (run (sched0 ++ sched1) (init_state (map (thread_prog update_locked) tps))).
+Proof.
+  intros tps sched0.
+  set (st0 := init_state (map (thread_prog update_locked) tps)).
+  assert (Hov0 : owner_valid st0) by (intros t Ht; discriminate).
+  destruct (inv_completes (expected tps) _ (run sched0 st0) eq_refl
+              (inv_run _ sched0 st0 (inv_init tps)) (owner_valid_run sched0 st0 Hov0))
+    as [sched1 H1].
+  exists sched1. rewrite run_app. exact H1.
+Qed.
+
+Corollary locked_finished_run_exists : forall tps : list (list (list cell)),
+  exists sched : list nat,
+    let st := run sched (init_state (map (thread_prog update_locked) tps)) in
+    all_done st /\ forall x : cell, sget (store st) x = expected tps x.
+Proof.
+  intros tps. destruct (locked_run_progress tps []) as [sched H]. cbn [app] in H.
+  exists sched. split; [exact H|]. apply locked_counts_exact. exact H.
+Qed.
